@@ -295,7 +295,7 @@ func main() {
 		}
 		return rs, died, to
 	}
-	wd := &cf.Writer{Dir: *out, Prefix: "cases_mal", Imports: w1.PrimImports, CaseType: "dcase", MismatchFn: "mismatches_dec", ShardSize: 400}
+	wd := w1.NewSizedWriter(*out, "cases_mal", "dcase", "mismatches_dec", 400, 250000)
 	for _, in := range inputs {
 		rs, died, to := call(in, in.ops)
 		var mon *cf.Monitor
